@@ -126,6 +126,15 @@ func shapes() []*shape {
 			world.Item{Kind: "claim", Claim: "set", PN: 2, Attr: "title", Val: 2, Date: 12, Signer: 1},
 			world.Item{Kind: "delete", Target: 2, Date: 20, Signer: 1},
 			world.Item{Kind: "delete", Target: 5, Date: 30, Signer: 1}),
+		// two signers claim values of one multi-valued attribute, dated s1 < s2 < s1 on the calendar but arriving in
+		// any order: a claim arriving out of date order rebuilds the attribute caches, the per-signer ones too
+		mk("twosigners-multi", []string{"x", "y", "z"},
+			world.Item{Kind: "key", Signer: 1},
+			world.Item{Kind: "key", Signer: 2},
+			world.Item{Kind: "permanode", Signer: 1, Data: "tsm"},
+			world.Item{Kind: "claim", Claim: "add", PN: 3, Attr: "tag", Val: 1, Date: 10, Signer: 1},
+			world.Item{Kind: "claim", Claim: "add", PN: 3, Attr: "tag", Val: 2, Date: 30, Signer: 2},
+			world.Item{Kind: "claim", Claim: "add", PN: 3, Attr: "tag", Val: 3, Date: 20, Signer: 1}),
 		// a permanode deleted, undeleted and deleted again: a chain of three delete claims (after a restart in the
 		// middle the last one lands on a deletes cache that was loaded from rows)
 		mk("redelete", []string{"t"},
@@ -262,6 +271,7 @@ func main() {
 		*scratch = d
 	}
 	sg, err := world.LoadSigners(*secring)
+	batterySigners = sg
 	if err != nil {
 		fatal(err)
 	}
@@ -631,6 +641,9 @@ func keysOf(a, b map[string]string) []string {
 
 // battery asks a fixed set of exported queries of index and corpus and renders the answers canonically,
 // with refs replaced by item ids.
+// batterySigners: the key ids for the signer-filtered attribute queries of the battery (set by main)
+var batterySigners *world.Signers
+
 func battery(e *idx.Env, b *world.Built) map[string]string { return batteryL(e, b, false) }
 
 // batteryL: with outer = true the whole battery runs under one index read lock, as a search request does
@@ -694,6 +707,13 @@ func batteryL(e *idx.Env, b *world.Built, outer bool) map[string]string {
 					for ti, t := range times {
 						out[fmt.Sprintf("c.PermanodeAttrValue(%s,%s,t%d)", tag, attr, ti)] = c.PermanodeAttrValue(br, attr, t, "")
 						out[fmt.Sprintf("c.AppendPermanodeAttrValues(%s,%s,t%d)", tag, attr, ti)] = strings.Join(c.AppendPermanodeAttrValues(nil, br, attr, t, ""), ",")
+						// the same through the per-signer caches (t0 = now: served from the cache; other times: from the claims)
+						if batterySigners != nil && (ti == 0 || ti == 3) {
+							for sgn := 1; sgn <= 2; sgn++ {
+								out[fmt.Sprintf("c.AppendPermanodeAttrValues(%s,%s,t%d,s%d)", tag, attr, ti, sgn)] =
+									strings.Join(c.AppendPermanodeAttrValues(nil, br, attr, t, batterySigners.KeyID[sgn]), ",")
+							}
+						}
 					}
 				}
 				if t, ok := c.PermanodeModtime(br); ok {
